@@ -16,19 +16,23 @@ Record quirks := mkQuirks {
   q_stale_ctx : bool;      (* &{} !{} #{} blocks see c.pos / c.text of the last action *)
   q_recover_scope : bool;  (* a recovery expression run by a throw shares the thrower's label scope *)
   q_memo_nocharge : bool;  (* memo hits are not charged to the expression budget *)
-  q_memo_label : bool;     (* results of label-binding expressions are memoised too: a hit skips the binding *)
+  q_memo_label : bool;     (* the memo key (node, offset) ignores the label scope: a hit skips label bindings and
+                              reuses the result of code blocks that read labels *)
   q_lr_memo_state : bool   (* a finished left-recursive leader stays memoised: entering it again at that offset
                               returns the result without replaying the state changes it made *)
 }.
 Definition faithful : quirks := mkQuirks true true true true true true.
 Definition repaired : quirks := mkQuirks false false false false false false.
 
-(* expressions whose evaluation may bind a label in the scope they are evaluated in *)
+(* expressions whose evaluation depends on, or binds labels in, the scope they are evaluated in:
+   label bindings, code blocks (they receive the labels in scope), and sequences / recovery operands made of
+   such; choices, repetitions, predicates and rule references evaluate their operands in a fresh scope *)
 Fixpoint scope_writes (e : expr) : bool :=
   match e with
   | ELab _ _ _ => true
+  | EAndC _ _ | ENotC _ _ | EStC _ _ => true
+  | EAct _ _ _ => true
   | ESeq _ es => (fix any (l : list expr) := match l with [] => false | x :: l' => scope_writes x || any l' end) es
-  | EAct _ _ e' => scope_writes e'
   | ERec _ e' _ _ => scope_writes e'
   | EThrow _ _ => true
   | _ => false
